@@ -94,8 +94,10 @@ def comp_cmds(rng, name, n):
             cmds.append("xm")
         elif r < 0.82:
             cmds.append("d %d" % rng.randint(0, 30))
-        elif r < 0.95:
+        elif r < 0.93:
             cmds.append("td %d" % rng.randint(0, 30))
+        elif r < 0.95:
+            cmds.append("tdf %d %d" % (rng.choice([0, 0, 1]), rng.choice([8, 16, 40])))
         elif name in COMPS_FB and not mixed:
             cmds.append("fill %d %d" % (rng.choice([1, 2]), rng.choice([0, 32, 64, 128, 100000])))
         else:
